@@ -77,6 +77,8 @@ type vAbRun struct {
 	buildErr  error
 	backlog   func() int // entries waiting in the reader's buffer (flow control)
 	stopDelay time.Duration
+	drain     bool // no more packets: every read returns empty (quiescence)
+	drained   bool // the run ended with at least 6 empty ticks
 	extEvery  int // producer 0 adds an external-trigger packet to every extEvery-th read (0 = never)
 	extSent   int // external-trigger entries handed to the reader
 	extSeq    int
@@ -207,6 +209,9 @@ func (p *vAbProducer) ReadAllPackets() ([]*packets.Packet, error) {
 	defer run.mu.Unlock()
 	t := run.calls[p.id]
 	run.calls[p.id]++
+	if run.drain {
+		return nil, nil
+	}
 	s := run.s
 	var out []*packets.Packet
 	deliver := func(gi, idx int) {
@@ -587,6 +592,23 @@ func vRunAbacoOnce(c *vCase, s *vAbScript, rep int) {
 			break
 		}
 	}
+	if !stalled && as.GetState() == Active {
+		// quiescence: the packets stop; after six empty read ticks everything that is complete in all groups must be out
+		run.mu.Lock()
+		run.drain = true
+		c0 := run.calls[0]
+		run.mu.Unlock()
+		for i := 0; i < 5000; i++ {
+			time.Sleep(time.Millisecond)
+			run.mu.Lock()
+			n := run.calls[0] - c0
+			run.mu.Unlock()
+			if n >= 6 {
+				run.drained = true
+				break
+			}
+		}
+	}
 	stoppedEarly := as.GetState() != Active
 	ok := vWatched(c, "AbacoSource.Stop", 20*time.Second, func() { as.Stop() })
 	if !ok {
@@ -684,6 +706,21 @@ func vCheckAbaco(c *vCase, s *vAbScript, run *vAbRun, tap *vAbTap, stalled bool,
 		}
 	}
 	N0 := s.nSample
+	if run.drained {
+		// per-channel sample count = frames spanned by the first through the last packet that arrived (in the group that is least far)
+		expect := -1
+		for gi := range s.groups {
+			if e := (lastDelivered[gi] + 1 - N0) * s.fpp; expect < 0 || e < expect {
+				expect = e
+			}
+		}
+		if total < expect {
+			c.Violate("c03:frames-withheld", "the packets stopped and six empty read ticks went by, but only %d frames were emitted; every group had delivered packets up to frame %d (%d frames are being held back)\n%s",
+				total, expect, expect-total, s)
+			return
+		}
+		c.Cov("drained_runs", 1)
+	}
 	fillerOut := 0
 	for ci, ch := range chans {
 		pos := 0
